@@ -77,7 +77,7 @@ def from_mapping(data):
     return dict(data)
 
 
-@register_encoder(set)
+@register_encoder(set, frozenset)
 def from_set(data):
     return list(data)
 
